@@ -48,7 +48,8 @@ STAGES = {
             S("shared-header", "^TestC14SharedHeader$", quick=300, thorough=20000, shards=(1, 4)),
             S("server-lists", "^TestC14ServerLists$", quick=2500, thorough=60000, shards=(3, 16)),
             S("interleaved", "^TestC14Interleaved$", quick=600, thorough=20000, shards=(2, 16))],
-    "C15": [S("outbound", "^TestC15$", quick=3000, thorough=150000, shards=(3, 16)),
+    "C15": [S("stall", "^TestC15Stall$"),
+            S("outbound", "^TestC15$", quick=3000, thorough=150000, shards=(3, 16)),
             S("inbound", "^TestC15Inbound$", quick=1500, thorough=80000, shards=(3, 16))],
     "C18": [S("regress", "^TestC18Regress$"),
             S("stream", "^TestC18$", quick=600, thorough=30000, shards=(4, 16)),
